@@ -9,8 +9,9 @@ Driver family `gov` (C15).  One case per line (fields separated by one space):
 * `cc`, `ce`: the service's `governanceChainId` / `governanceEmitterAddress`; `gsi`, `ts`: `CurrentSetIndex`, `Timestamp`;
 * a message is `seq:nonce:tc:kind:args` with kind/args one of `none:-`, `fee:<s>`, `tf:<s>,<s>`, `gs:<pub>/<name>,..|-`, `cu:<s>`,
   `rc:<s>,<n>,<s>`, `bu:<s>,<s>`, `ds:<n>,<n.n.n|->`, `cl:<n>`, `ra:<s>`; every Go string `<s>` is the hex of its bytes (`-` = empty);
-* `res`/`code`/`msg`: what the real `InjectGovernanceVAA` returned (gRPC status code and message), `sent`: every VAA it pushed on
-  `injectC`, canon = `ver,gs,sigs,ts,nonce,ec,tc,emhex,seq,cl,plhex`; `dig`: the digests it returned; `kk`: Keccak(Keccak(body)) recomputed
+* `res`/`code`/`msg`: what the real `InjectGovernanceVAA` returned (gRPC status code and message), `sent`: every VAA it handed to
+  `injectC` - read until QUIESCENCE (an accepted request owes one VAA per digest; every goroutine the handler left behind has ended),
+  not just what is there when the handler returns; `nil`: nil pointers found there; canon = `ver,gs,sigs,ts,nonce,ec,tc,emhex,seq,cl,plhex`; `dig`: the digests it returned; `kk`: Keccak(Keccak(body)) recomputed
   by the harness from the pushed VAAs; `ps`: fingerprints of the complete result (status, message, every field of every VAA, digests) of the
   same request on the reference instance and on instances with different ambient node state (guardian-set state nil / empty / index 0 /
   equal / higher, different stores, channel fill levels and histories; some built by the production constructor and called over the admin
@@ -348,7 +349,33 @@ def showIRes : IRes → String
   | .err c m => s!"err code={c} msg=\"{showStr m}\""
   | .panic => "panic"
 
-def step (st : St) (line : String) : St × List String :=
+/-- Hand-over clauses, evaluated on what reached the injection channel until quiescence (next to the per-message clauses of
+`stepMain`, never instead of them):
+* `nil-vaa-injected` — a nil pointer was handed to the processor ("no request crashes the node": it dereferences what it reads);
+* `injected-vaas-not-the-acknowledged` — the request was accepted and one digest per message returned, but the VAAs handed to the
+  processor are not (as a multiset) the VAAs with those digests: some message's VAA never arrives, another arrives twice. -/
+def handOver (id : String) (rest : List String) : List String :=
+  let nils := (kvNat rest "nil").getD 0
+  let a := if nils > 0 then
+      [s!"spec {id} nil-vaa-injected InjectGovernanceVAA handed {nils} nil VAA pointer(s) to the injection channel (result {(kv rest "res").getD "?"}): the processor dereferences what it reads there"]
+    else []
+  let lst (k : String) : List String := match kv rest k with | some "-" => [] | some x => x.splitOn "," | none => []
+  let dig := lst "dig"
+  let kk := lst "kk"
+  let count (l : List String) (x : String) : Nat := (l.filter (· == x)).length
+  let b :=
+    if (kv rest "res") == some "ok" && (dig.any (fun d => count kk d != count dig d) || kk.any (fun d => count kk d != count dig d)) then
+      let seqOf (i : Nat) : String := match (kv rest "msgs" >>= parseMsgs) with
+        | some ms => (match ms[i]? with | some m => s!"message {i} (sequence {m.sequence}, {kindName m.payload})" | none => s!"message {i}")
+        | none => s!"message {i}"
+      let never := (List.range dig.length).filter fun i => count kk (dig.getD i "") < count dig (dig.getD i "")
+      let twice := (List.range dig.length).filter fun i => count kk (dig.getD i "") > count dig (dig.getD i "")
+      let strays := (kk.filter fun d => !dig.contains d).length
+      [s!"spec {id} injected-vaas-not-the-acknowledged request of {dig.length} messages accepted, one digest per message returned, but the VAAs handed to the processor (read until nothing was in flight any more: {kk.length}) are not the VAAs with those digests: never injected: {never.map seqOf}; injected more often than acknowledged: {twice.map seqOf}; injected with a digest that was not returned: {strays}"]
+    else []
+  a ++ b
+
+def stepMain (st : St) (line : String) : St × List String :=
   let fs := fields line
   match fs with
   | "inj" :: id :: rest =>
@@ -396,6 +423,16 @@ def step (st : St) (line : String) : St × List String :=
     | none => (st, ["diff - unparsable facts line"])
   | [] => (st, [])
   | _ => (st, [s!"diff ? unknown line: {line.take 80}"])
+
+def step (st : St) (line : String) : St × List String :=
+  let (st', outs) := stepMain st line
+  match fields line with
+  | "inj" :: id :: rest =>
+    let extra := handOver id rest
+    if extra.isEmpty then (st', outs)
+    else if outs.any (·.startsWith "spec ") then (st', outs ++ extra)
+    else (st', extra)
+  | _ => (st', outs)
 
 def fin (st : St) : List String :=
   [s!"stat facts_from_current_sources {st.factsGiven}", s!"stat facts_equal_node_layout {if st.facts = Facts.node then 1 else 0}",
